@@ -24,6 +24,7 @@ func Field[T, S any](c <-chan *S, name string) (<-chan T, error) {
 
 	result := make(chan T, cap(c))
 
+	VerifStage("Field", 0, []any{c}, []any{result})
 	go func() {
 		defer close(result)
 
